@@ -535,6 +535,57 @@ def _kind_conjuncts(test, var, required, where):
     return table
 
 
+class _Rename(ast.NodeTransformer):
+    def __init__(self, var):
+        self.var = var
+
+    def visit_Name(self, node):
+        return ast.copy_location(ast.Name(id="_v", ctx=node.ctx), node) if node.id == self.var else node
+
+
+def _norm(expr, var):
+    return _ws(ast.unparse(_Rename(var).visit(ast.parse(ast.unparse(expr), mode="eval").body)))
+
+
+def _collection_builders(body, source):
+    """Statements that build a list / set from one pass over `source` with one filter, in either spelling:
+         X = [E for v in source if C]            X = {E for v in source if C}
+         X = []                                  X = set()
+         for v in source:                        for v in source:
+             if C:                                   if C:
+                 X.append(E)                             X.add(E)
+    Returns ({X: (kind, E, C)} with the loop variable renamed to _v, indices of the consumed statements)."""
+    out, used = {}, set()
+    for i, st in enumerate(body):
+        if not (isinstance(st, ast.Assign) and len(st.targets) == 1 and isinstance(st.targets[0], ast.Name)):
+            continue
+        name, val = st.targets[0].id, st.value
+        if isinstance(val, (ast.ListComp, ast.SetComp)) and len(val.generators) == 1:
+            g = val.generators[0]
+            if _ws(ast.unparse(g.iter)) == source and isinstance(g.target, ast.Name) and len(g.ifs) == 1 and not g.is_async:
+                out[name] = ("list" if isinstance(val, ast.ListComp) else "set",
+                             _norm(val.elt, g.target.id), _norm(g.ifs[0], g.target.id))
+                used.add(i)
+            continue
+        empty = ("list" if _ws(ast.unparse(val)) == "[]" else "set" if _ws(ast.unparse(val)) == "set()" else None)
+        if empty is None or i + 1 >= len(body):
+            continue
+        loop = body[i + 1]
+        if not (isinstance(loop, ast.For) and not loop.orelse and isinstance(loop.target, ast.Name)
+                and _ws(ast.unparse(loop.iter)) == source and len(loop.body) == 1 and isinstance(loop.body[0], ast.If)
+                and not loop.body[0].orelse and len(loop.body[0].body) == 1):
+            continue
+        call = loop.body[0].body[0]
+        meth = "append" if empty == "list" else "add"
+        if (isinstance(call, ast.Expr) and isinstance(call.value, ast.Call) and isinstance(call.value.func, ast.Attribute)
+                and call.value.func.attr == meth and ast.unparse(call.value.func.value) == name
+                and len(call.value.args) == 1 and not call.value.keywords):
+            v = loop.target.id
+            out[name] = (empty, _norm(call.value.args[0], v), _norm(loop.body[0].test, v))
+            used.update({i, i + 1})
+    return out, used
+
+
 def translate_remove(en):
     """remove_deletable_files / _prune_empty_dirs / _try_remove.  The loop over the queued files is read
     structurally: for which kinds of path (lstat) the recorded hash is compared before the removal, and whether all
@@ -543,17 +594,22 @@ def translate_remove(en):
     fn = find_function(tree, "remove_deletable_files")
     body = body_without_docstring(fn)
     src = ast.unparse(fn)
-    frags = [
-        "file_paths = [path for path in workflow.to_be_deleted if not path.endswith(os.sep)]",
-        "dirs = {Path(path).normpath() for path in workflow.to_be_deleted if path.endswith(os.sep)}",
-        "await _prune_empty_dirs(dirs, reporter)",
-        "workflow.to_be_deleted.clear()",
-    ]
-    for f in frags:
+    where = "remove_deletable_files"
+    for f in ["await _prune_empty_dirs(dirs, reporter)", "workflow.to_be_deleted.clear()"]:
         if not _has(src, f):
             raise TranslatorError(f"remove_deletable_files: fragment missing: {f[:70]!r}")
+    # which queued keys are files and which are directories: statement-level, either spelling
+    builders, used = _collection_builders(body, "workflow.to_be_deleted")
+    if builders.get("file_paths") != ("list", "_v", "not _v.endswith(os.sep)"):
+        raise TranslatorError(f"{where}: file_paths is not the list of the queued keys without a trailing separator: "
+                              f"{builders.get('file_paths')}")
+    if builders.get("dirs") != ("set", "Path(_v).normpath()", "_v.endswith(os.sep)"):
+        raise TranslatorError(f"{where}: dirs is not the set of the normalised queued keys with a trailing separator: "
+                              f"{builders.get('dirs')}")
+    if set(builders) != {"file_paths", "dirs"}:
+        raise TranslatorError(f"{where}: unexpected collections built from to_be_deleted: {sorted(builders)}")
+    body = [st for i, st in enumerate(body) if i not in used]
     loops = [st for st in body if isinstance(st, ast.For)]
-    where = "remove_deletable_files"
     if not loops or _ws(ast.unparse(loops[0].iter)) != "sorted(file_paths, reverse=True)" \
             or ast.unparse(loops[0].target) != "file_path" or loops[0].orelse:
         raise TranslatorError(f"{where}: the loop over sorted(file_paths, reverse=True) changed")
